@@ -49,7 +49,7 @@ func checkC13(e *Env) {
 	inBounds := gate.Cmp("L.in-bounds", "*", token.LSS, "len(param:input)")
 	rec := gate.CallOK("L.item-ok", "cbor.deterministicRec", "slice(param:input,*,)")
 	countedLoop(e, "FORALL", arr, "conv(call:cbor.unsignedIntegerDeterministic(param:input)#1)", inBounds, rec)
-	countedLoop(e, "FORALL", mp, "(conv(call:cbor.unsignedIntegerDeterministic(slice(param:input,const:0,))#1) * const:2)", inBounds, rec)
+	countedLoop(e, "FORALL", mp, "(conv(call:cbor.unsignedIntegerDeterministic(param:input)#1) * const:2)", inBounds, rec)
 	// top-level loop
 	if d := e.fn("internal/cbor.Deterministic"); d != nil {
 		var loops [][2]*ssa.BasicBlock
@@ -68,8 +68,8 @@ func checkC13(e *Env) {
 	}
 	// (e) key order on key positions
 	if mp != nil {
-		parity := gcfg{name: "key-position", assume: []gate.Assumption{{ProvPat: "(phi((↺ + const:1)|const:0) % const:2)", Value: "0"}}}
-		tCmp := "call:bytes.Compare(phi(alloc:[0]byte|*),slice(param:input,*))"
+		parity := gcfg{name: "key-position", assume: []gate.Assumption{{ProvPat: "(phi((↺ + const:1)|const:0) % const:2)", Value: "0"}, {ProvPat: "(phi((↺ + const:1)|const:0) & const:1)", Value: "0"}}}
+		tCmp := "call:bytes.Compare(phi({alloc:[0]byte|const:nil}|*),slice(param:input,*))"
 		for _, b := range mp.Blocks {
 			if ifi, ok := b.Instrs[len(b.Instrs)-1].(*ssa.If); ok {
 				if c, ok := ifi.Cond.(*ssa.BinOp); ok && c.Op == token.LSS && strings.HasPrefix(prov.Of(c.Y), "(conv(call:cbor.unsignedIntegerDeterministic(") {
